@@ -46,6 +46,20 @@ pub struct Case {
     /// What is stored and what credProps says must still agree.
     #[serde(default)]
     pub during: u8,
+    /// the relying party is this host (origin https://<host>, RP id defaulted from it) instead of
+    /// example.com: host-like constants of the client's sources and their neighbours.  A host the
+    /// client does not accept as RP id at all (probe registration without credProps fails) is skipped
+    #[serde(default)]
+    pub host: Option<String>,
+}
+fn with_case_origin<R>(c: &Case, org: super::common::Org, f: impl FnOnce(passkey_client::Origin<'_>) -> R) -> R {
+    match &c.host {
+        Some(h) => {
+            let u = url::Url::parse(&format!("https://{h}")).expect("harness: host url");
+            f(passkey_client::Origin::Web(std::borrow::Cow::Borrowed(&u)))
+        }
+        None => super::common::with_origin(org, f),
+    }
 }
 fn cap_of(c: u8) -> Cap {
     match c {
@@ -53,6 +67,24 @@ fn cap_of(c: u8) -> Cap {
         1 => Cap::OnlyNonDiscoverable,
         _ => Cap::ForcedDiscoverable,
     }
+}
+
+/// host-like string constants of the client's sources, and neighbours of each
+fn dict_hosts() -> Vec<String> {
+    let mut v = vec![];
+    for l in crate::core::dict::source_literals(&["passkey-client"], 40) {
+        let Ok(t) = String::from_utf8(l) else { continue };
+        let t = t.to_ascii_lowercase();
+        if !t.contains('.') || !t.bytes().all(|b| b.is_ascii_alphanumeric() || b == b'.' || b == b'-') || t.starts_with(['.', '-']) || t.ends_with(['.', '-']) || t.contains("..") {
+            continue;
+        }
+        v.push(t.clone());
+        v.push(format!("www.{t}"));
+        v.push(format!("x{t}"));
+    }
+    v.sort();
+    v.dedup();
+    v
 }
 
 pub fn cases() -> Vec<Case> {
@@ -71,22 +103,22 @@ pub fn cases() -> Vec<Case> {
                                 // the wrappers are spread over the configuration cells, and every
                                 // residentKey x capability cell meets every wrapper with default configuration
                                 let wrap = (hmac + prf + u8::from(counter)) % 4;
-                                v.push(Case { cap, resident_key, require_resident_key, cred_props, ctap: false, rk: false, cfg, prf, wrap, prior: 0, android: false, during: 0 });
+                                v.push(Case { cap, resident_key, require_resident_key, cred_props, ctap: false, rk: false, cfg, prf, wrap, prior: 0, android: false, during: 0, host: None });
                                 if wrap == 0 {
-                                    v.push(Case { cap, resident_key, require_resident_key, cred_props, ctap: false, rk: false, cfg, prf, wrap, prior: 0, android: true, during: 0 });
+                                    v.push(Case { cap, resident_key, require_resident_key, cred_props, ctap: false, rk: false, cfg, prf, wrap, prior: 0, android: true, during: 0, host: None });
                                     if cred_props == 2 {
                                         for during in 1..3u8 {
-                                            v.push(Case { cap, resident_key, require_resident_key, cred_props, ctap: false, rk: false, cfg, prf, wrap, prior: 0, android: false, during });
+                                            v.push(Case { cap, resident_key, require_resident_key, cred_props, ctap: false, rk: false, cfg, prf, wrap, prior: 0, android: false, during, host: None });
                                         }
                                     }
                                 }
                                 if hmac == 0 && prf == 0 && !counter {
                                     for wrap in 1..4u8 {
-                                        v.push(Case { cap, resident_key, require_resident_key, cred_props, ctap: false, rk: false, cfg, prf, wrap, prior: 0, android: false, during: 0 });
+                                        v.push(Case { cap, resident_key, require_resident_key, cred_props, ctap: false, rk: false, cfg, prf, wrap, prior: 0, android: false, during: 0, host: None });
                                     }
                                     for prior in 1..3u8 {
                                         for wrap in [0u8, 1] {
-                                            v.push(Case { cap, resident_key, require_resident_key, cred_props, ctap: false, rk: false, cfg, prf, wrap, prior, android: false, during: 0 });
+                                            v.push(Case { cap, resident_key, require_resident_key, cred_props, ctap: false, rk: false, cfg, prf, wrap, prior, android: false, during: 0, host: None });
                                         }
                                     }
                                 }
@@ -96,14 +128,20 @@ pub fn cases() -> Vec<Case> {
                 }
             }
         }
+        // host-like constants of the client's sources as relying parties
+        for host in dict_hosts() {
+            for (resident_key, cred_props) in [(0u8, 2u8), (4, 2), (3, 0)] {
+                v.push(Case { cap, resident_key, require_resident_key: false, cred_props, ctap: false, rk: false, cfg: Default::default(), prf: 0, wrap: 0, prior: 0, android: false, during: 0, host: Some(host.clone()) });
+            }
+        }
         for rk in [false, true] {
             for (hmac, hmac_mc) in [(0u8, false), (2, true)] {
                 let cfg = super::common::AuthCfg { counter: hmac != 0, id_len: (hmac != 0).then_some(32), hmac, hmac_mc };
                 for wrap in 0..4u8 {
-                    v.push(Case { cap, resident_key: 0, require_resident_key: false, cred_props: 0, ctap: true, rk, cfg, prf: 0, wrap, prior: 0, android: false, during: 0 });
+                    v.push(Case { cap, resident_key: 0, require_resident_key: false, cred_props: 0, ctap: true, rk, cfg, prf: 0, wrap, prior: 0, android: false, during: 0, host: None });
                 }
                 for prior in 1..3u8 {
-                    v.push(Case { cap, resident_key: 0, require_resident_key: false, cred_props: 0, ctap: true, rk, cfg, prf: 0, wrap: 0, prior, android: false, during: 0 });
+                    v.push(Case { cap, resident_key: 0, require_resident_key: false, cred_props: 0, ctap: true, rk, cfg, prf: 0, wrap: 0, prior, android: false, during: 0, host: None });
                 }
             }
         }
@@ -122,6 +160,19 @@ fn expected_rk(c: &Case, authenticator_supports_rk: bool) -> bool {
 }
 
 pub fn eval(c: &Case) -> (Vec<Finding>, String) {
+    if let Some(h) = &c.host {
+        if url::Url::parse(&format!("https://{h}")).is_err() {
+            return (vec![], "host-not-acceptable".into());
+        }
+        // probe: is the host acceptable as a relying party at all?
+        let (_, o) = eval_inner(&Case { cred_props: 0, ..c.clone() });
+        if o == "failed" || o == "panic" {
+            return (vec![], "host-not-acceptable".into());
+        }
+    }
+    eval_inner(c)
+}
+fn eval_inner(c: &Case) -> (Vec<Finding>, String) {
     let cap = cap_of(c.cap);
     let mut rs = RefStore::new();
     rs.cap = cap;
@@ -208,7 +259,7 @@ where
         };
         let extensions = (c.cred_props != 0 || c.prf != 0).then(|| webauthn::AuthenticationExtensionsClientInputs { cred_props: (c.cred_props != 0).then_some(c.cred_props == 2), prf, prf_already_hashed: None });
         let opts = creation_options(Reg { rp_id: c.android.then(|| "example.com".to_string()), selection, extensions, user_id: vec![7, 7], ..Default::default() });
-        match par::catch(|| super::common::with_origin(org, |o| block_on(client.register(o, opts, DefaultClientData)))) {
+        match par::catch(|| with_case_origin(c, org, |o| block_on(client.register(o, opts, DefaultClientData)))) {
             Err(p) => {
                 bad("panic", format!("register panicked: {p}"));
                 return (fs, "panic".into());
@@ -295,9 +346,9 @@ where
     let res = if unverified {
         let uv2 = ScriptedUv::consenting(Log::new()).outcome(UvOutcome::Ok { presence: true, verification: false });
         let mut c2 = Client::new(Authenticator::new(Aaguid::new_empty(), store.clone(), uv2));
-        par::catch(|| super::common::with_origin(org, |o| block_on(c2.authenticate(o, opts, DefaultClientData))))
+        par::catch(|| with_case_origin(c, org, |o| block_on(c2.authenticate(o, opts, DefaultClientData))))
     } else {
-        par::catch(|| super::common::with_origin(org, |o| block_on(client.authenticate(o, opts, DefaultClientData))))
+        par::catch(|| with_case_origin(c, org, |o| block_on(client.authenticate(o, opts, DefaultClientData))))
     };
     match res {
         Err(p) => bad("panic", format!("authenticate panicked: {p}")),
@@ -328,7 +379,7 @@ pub fn run(ctx: &Ctx) -> Result<Run, String> {
     let n = cs.len() as u64;
     let mut run = Run::from_stats(
         "model_checking",
-        "complete product store capability(3) x residentKey{no selection, absent, discouraged, preferred, required} x requireResidentKey(2) x credProps{absent,false,true} x authenticator configuration {no hmac-secret, UV-only, with non-UV secret, with evaluation at creation} x prf input {absent, empty, eval} x counters on/off, the store handed over bare / inside Arc<Mutex> / Arc<RwLock> / Mutex (the shipped lock wrappers), on a fresh authenticator and on one that earlier answered getInfo / registered while the store had another capability, from the web origin and from an Android app origin, through Client::register + Client::authenticate, plus capability(3) x rk(2) through Authenticator::make_credential; each configuration runs a registration and two assertions with the new credential (default requirement with a verified user; verification discouraged with a present but unverified user); every configuration is non-trivial (it reaches save_credential or the required-rk refusal)",
+        "complete product store capability(3) x residentKey{no selection, absent, discouraged, preferred, required} x requireResidentKey(2) x credProps{absent,false,true} x authenticator configuration {no hmac-secret, UV-only, with non-UV secret, with evaluation at creation} x prf input {absent, empty, eval} x counters on/off, the store handed over bare / inside Arc<Mutex> / Arc<RwLock> / Mutex (the shipped lock wrappers), on a fresh authenticator and on one that earlier answered getInfo / registered while the store had another capability, from the web origin and from an Android app origin, and with every dotted host-like string constant of the client's sources (and www.<it>, x<it>) as relying party where the client accepts it, through Client::register + Client::authenticate, plus capability(3) x rk(2) through Authenticator::make_credential; each configuration runs a registration and two assertions with the new credential (default requirement with a verified user; verification discouraged with a present but unverified user); every configuration is non-trivial (it reaches save_credential or the required-rk refusal)",
         true,
         stats,
     );
